@@ -134,6 +134,13 @@ pub fn generate(rng: &mut Rng, prop: Prop) -> Scenario {
         let n = bounds.len() - 1;
         let mut clean = true;
         let mut ops: Vec<Item> = Vec::new();
+        if f_nocopy && n == 1 && ctype == 22 && payload.len() >= 4 && rng.chance(1, 4) {
+            // parse_record_nocopy on a truncated record, then parse_record on a DIFFERENT record
+            // that happens to carry the same header (type, version, length)
+            let mut probe = vec![*rng.pick(&[1u8, 2, 11, 12, 16]), 0, (payload.len() >> 8) as u8 | 1, payload.len() as u8];
+            probe.extend(rng.bytes(payload.len() - 4));
+            ops.push(Item::new("nocopy").int("type", 22).int("ver", ver).bytes("data", &probe));
+        }
         for i in 0..n {
             let frag = &payload[bounds[i]..bounds[i + 1]];
             let mut it = Item::new("rec").int("type", ctype as u64).int("ver", ver).bytes("data", frag);
@@ -219,6 +226,12 @@ pub fn generate(rng: &mut Rng, prop: Prop) -> Scenario {
             let mut it = foreign_record(rng, 0);
             it.kind = "nocopy".into();
             s.push(it);
+        }
+        if d == 0 && rng.chance(1, 2) {
+            // hand-built records near the cap whose header length disagrees with the data: the limit
+            // is about the bytes actually accumulated
+            s.push(Item::new("rec").int("type", 22).int("ver", 0x0303).int("fill", fill).int("n", chunk as u64).int("hdrlen", 0));
+            s.push(Item::new("rec").int("type", 22).int("ver", 0x0303).int("fill", fill).int("n", 64).int("hdrlen", 16640));
         }
         // keep feeding after the refusal: a peer does not stop because the monitor said TooLarge
         let after = if rng.chance(1, 2) { rng.urange(400, 700) } else { rng.urange(1, 3) };
